@@ -183,6 +183,24 @@ fn main() {
             props::c09::run(&tier, seed, &out);
             0
         }
+        "c09-long-count" => {
+            let gmax: usize = arg(&args, "--gmax").and_then(|x| x.parse().ok()).unwrap_or(400);
+            for f in props::c09::LONG_FAMILIES {
+                let mut ok = 0;
+                let mut first_fail = None;
+                for g in 0..=gmax {
+                    for split in [false, true] {
+                        if props::c09::long_history(f, g, split).is_some() {
+                            ok += 1;
+                        } else if first_fail.is_none() {
+                            first_fail = Some((g, split));
+                        }
+                    }
+                }
+                println!("{}: built {} of {}, first failure {:?}", f.name, ok, 2 * (gmax + 1), first_fail);
+            }
+            0
+        }
         "c09-one" => props::c09::replay(&arg(&args, "--start").unwrap(), &arg(&args, "--moves").unwrap_or_default(), arg(&args, "--prev-moves").as_deref()),
         "c03" => {
             props::c03::run(&tier, seed, &out, &engine_hooks(&args));
